@@ -351,5 +351,9 @@ def _untraced(fn):
 
 import http.client as _hc
 
+# the oracle-side parser and response builder only see concrete bytes
+parse_requests = _untraced(parse_requests)
+response_bytes = _untraced(response_bytes)
+
 if not hasattr(_hc._parse_header_lines, "__wrapped__"):
     _hc._parse_header_lines = _untraced(_hc._parse_header_lines)
